@@ -266,14 +266,16 @@ def run_property(pid, tier, seed, only=None, keep=False, nodiff=False):
     t0 = time.time()
     os.environ['VERIF_TIER'] = tier
     hs = load_harnesses(pid, tier)
-    if only: hs = [h for h in hs if h.name in only]
+    mod_ = importlib.import_module(pid)
+    chs = mod_.cbmc_harnesses(tier) if hasattr(mod_, 'cbmc_harnesses') else []
+    if only: hs = [h for h in hs if h.name in only]; chs = [h for h in chs if h.name in only]
     work = tempfile.mkdtemp(prefix='verif-%s-' % pid)
     build = Build(work)
     status = 0; lines = []
     ev = dict(property_id=pid, tier=tier, seed=seed, level='model_checking', violations=0)
     try:
         # 1. build all wrappers (IR + native) in parallel
-        wr = sorted({(h.wrapper, h.defs) for h in hs})
+        wr = sorted({(h.wrapper, h.defs) for h in hs} | {(h.wrapper, ()) for h in chs})
         from concurrent.futures import ThreadPoolExecutor
         with ThreadPoolExecutor(max_workers=NCPU) as ex:
             futs = [ex.submit(build.ir, w, d) for (w, d) in wr]
@@ -343,6 +345,16 @@ def run_property(pid, tier, seed, only=None, keep=False, nodiff=False):
                 diff_ok += n_ok
                 for m in mism: machinery.append('%s: interpreter and native build disagree on %s: %s vs %s' % (h.name, m['inputs'], m['interp'], m['native']))
                 for e in errs: machinery.append('%s: %s' % (h.name, e))
+        # 3b. E1: cbmc harnesses (each twice: the proof obligation and its witness twin, which must fail)
+        cres = []
+        if chs:
+            import e1
+            from concurrent.futures import ThreadPoolExecutor as TPE
+            for h in chs: e1.translate(build, h.wrapper)
+            def one(h):
+                r = e1.run_cbmc(build, h); w = e1.run_cbmc(build, h, witness=True)
+                return h, r, w
+            with TPE(max_workers=max(1, NCPU // 2)) as ex: cres = list(ex.map(one, chs))
         # 4. verdicts
         replayed = 0; violations = []; knowns = []; unconfirmed = []
         machinery += build_msgs
@@ -378,6 +390,23 @@ def run_property(pid, tier, seed, only=None, keep=False, nodiff=False):
                     violations.append((h.name, kind, msg, path, f['inputs'], text))
                 else:
                     unconfirmed.append((h.name, kind, msg, fl[0]['inputs'], fl[0].get('replay_text', '')))
+        for (h, r, w) in cres:
+            if r['verdict'] in ('timeout', 'error'): machinery.append('%s: cbmc %s after %.0f s%s' % (h.name, r['verdict'], r['wall'], ': ' + r['out'][-300:] if r['verdict'] == 'error' else ''))
+            elif r['verdict'] == 'failed':
+                import e1
+                vals = e1.trace_inputs(r['out'])
+                so = build.native(h.wrapper)
+                try: bad, text = h.replay(so, vals) if h.replay else (False, 'no replay function')
+                except Exception as e: bad, text = False, 'replay error %s' % e
+                replayed += 1
+                if bad:
+                    hsh = hashlib.sha1(json.dumps([h.name, r['failed']], sort_keys=True).encode()).hexdigest()[:10]
+                    path = os.path.join(ROOT, 'replay', pid, '%s-%s.json' % (h.name, hsh))
+                    json.dump(dict(property=pid, tier=tier, harness=h.name, engine='cbmc', inputs=vals, failed=r['failed'], native=text), open(path, 'w'), indent=1)
+                    violations.append((h.name, 'cbmc-assertion', ', '.join(r['failed'][:3]), path, vals, text))
+                else: unconfirmed.append((h.name, 'cbmc-assertion', ', '.join(r['failed'][:3]), vals, text))
+            if w['verdict'] != 'failed' or not any('assertion' in x for x in w['failed']):
+                if r['verdict'] == 'success': machinery.append('%s: vacuous: the witness twin (assert(0) at the end) did not fail (%s)' % (h.name, w['verdict']))
         # known findings: replay the recorded example natively; still failing -> KNOWN-FINDING line
         for k in kf:
             h = hmap.get(k['harness'])
@@ -402,22 +431,25 @@ def run_property(pid, tier, seed, only=None, keep=False, nodiff=False):
         samples = []
         for h in hs:
             for s in per[h.name]['samples'][:2]: samples.append(dict(harness=h.name, **s))
+        for (h, r, w) in cres[:3]: samples.append(dict(harness=h.name, engine='cbmc', function=h.fn, defines=list(h.defines), verdict=r['verdict'], checked_properties=r['props']))
         if not samples: samples = [dict(harness=h.name, note='no symbolic inputs on the explored paths') for h in hs[:1]]
         ev['violations'] = len(violations)
         ev['coverage'] = dict(
-            states=max(1, tot('paths')), transitions=max(1, tot('queries')), traces_validated_against_impl=replayed + diff_ok, samples=samples,
-            evaluations=max(1, tot('paths')), distinct_nontrivial=tot('obl_paths'),
+            states=max(1, tot('paths') + len(cres)), transitions=max(1, tot('queries') + sum(r['props'] for (_, r, _) in cres)), traces_validated_against_impl=replayed + diff_ok, samples=samples,
+            evaluations=max(1, tot('paths') + len(cres)), distinct_nontrivial=tot('obl_paths') + sum(1 for (_, r, w) in cres if r['verdict'] == 'success' and w['verdict'] == 'failed'),
             rule='one evaluation = one feasible control-flow path of the harness through the real IR (distinct decision trace); non-trivial = the path ran to a checked end of the harness (discharged at least one solver-checked obligation or passed its concrete oracle comparisons)',
-            obligations=tot('obligations'), discharged=tot('obligations') - sum(len(per[h.name]['findings']) for h in hs),
+            obligations=tot('obligations') + sum(r['props'] for (_, r, _) in cres), discharged=tot('obligations') - sum(len(per[h.name]['findings']) for h in hs) + sum(r['props'] - len(r['failed']) for (_, r, _) in cres),
             solver_s=round(tot('solver_s'), 2), ir_instructions_executed=tot('steps'),
             functions_encoded=[demangle_short(f) for f in funcs][:400], functions_encoded_count=len(funcs),
             harnesses=[dict(name=h.name, mode=h.mode, wrapper=h.wrapper, desc=h.desc, bounds=h.bounds, jobs=len(h.jobs), paths=per[h.name]['paths'],
                             queries=per[h.name]['queries'], obligations=per[h.name]['obligations'], solver_s=round(per[h.name]['solver_s'], 2),
                             reached=per[h.name]['reached'], findings=len(per[h.name]['findings'])) for h in hs],
+            cbmc_harnesses=[dict(name=h.name, function=h.fn, defines=list(h.defines), backend=list(h.backend) or ['sat (cbmc default)'], verdict=r['verdict'], wall_s=round(r['wall'], 1),
+                                 properties=r['props'], sat_variables=r.get('vars', 0), sat_clauses=r.get('clauses', 0), witness_twin=w['verdict'], desc=h.desc, bounds=h.bounds) for (h, r, w) in cres],
             differential_inputs_agreeing=diff_ok, counterexamples_replayed=replayed,
             known_findings=[k['key'] for (k, _) in knowns], machinery_problems=machinery, exhaustive=False,
             engine='llsym (path-wise symbolic execution of clang-14 IR, z3 %s)' % z3ver())
-        ev['assumptions'] = assumptions_for(hs)
+        ev['assumptions'] = assumptions_for(hs) + ['%s: bounds: %s' % (h.name, h.bounds) for (h, _, _) in cres[:40]]
     except BuildError as e:
         lines.append('MACHINERY: build failed: %s' % e); status = 2
         ev['coverage'] = dict(evaluations=1, distinct_nontrivial=0, states=1, transitions=1, traces_validated_against_impl=0, samples=['build failed'], machinery_problems=[str(e)[:500]])
@@ -477,6 +509,18 @@ def replay_file(path):
     pid = spec['property']; tier = spec.get('tier', 'quick')
     os.environ['VERIF_TIER'] = tier
     hs = load_harnesses(pid, tier)
+    if spec.get('engine') == 'cbmc':
+        mod_ = importlib.import_module(pid)
+        h = [x for x in mod_.cbmc_harnesses(tier) if x.name == spec['harness']][0]
+        work = tempfile.mkdtemp(prefix='verif-replay-')
+        try:
+            b = Build(work)
+            bad, text = h.replay(b.native(h.wrapper), spec['inputs'])
+            print(('REPRODUCED: ' if bad else 'not reproduced: ') + text)
+            if bad: print('VIOLATION property=%s replay=%s' % (pid, path))
+            return 1 if bad else 0
+        finally:
+            shutil.rmtree(work, ignore_errors=True)
     h = [x for x in hs if x.name == spec['harness']][0]
     work = tempfile.mkdtemp(prefix='verif-replay-')
     try:
